@@ -147,6 +147,42 @@ SPECS = {
              "attrs": {"self.parameters.mu_j": "mu_j", "self.parameters.sigma_j": "sigma_j"}},
         ],
     },
+    # wave 6: the exponent for a COMPLEX argument, translated over C = R * R (plug-in harness/py2coq_c10cx.py, Base/CxPair.v):
+    # LevyModel.levy_exponent itself (with levy_exponent_pure_jump as a function argument) and the pure-jump exponents of HEM and VG
+    "GenC10Cx": {
+        "file": "rpylib/model/levymodel/levymodel.py", "dom": "R", "ext": "py2coq_c10cx",
+        "header": "From Coq Require Import ZArith Reals Bool List.\nFrom Coquelicot Require Import Coquelicot.\n"
+                  "From RV Require Import Base.RB Base.CxPair.\nOpen Scope R_scope.\n",
+        "funcs": [
+            {"py": "LevyModel.levy_exponent", "coq": "levy_exponent_c", "pyargs": ["x"], "complex": True,
+             "args": [("a0", R), ("sigma0", R), ("pj", "C -> C"), ("x", "C")], "ret": "C",
+             "attrs": {"self._original_drift": "a0", "self.levy_triplet.sigma": "sigma0"},
+             "ccalls": {"self.levy_exponent_pure_jump": "pj"}},
+            {"file": "rpylib/model/levymodel/mixed/hem.py", "py": "HEMModel.levy_exponent_pure_jump", "coq": "hem_pj_c", "pyargs": ["x"],
+             "complex": True, "args": _HEM_ARGS + [("x", "C")], "ret": "C", "attrs": _HEM_P},
+            {"file": "rpylib/model/levymodel/purejump/variancegamma.py", "py": "VarianceGammaModel.levy_exponent_pure_jump", "coq": "vg_pj_c",
+             "pyargs": ["x"], "complex": True, "args": _VG_ARGS + [("x", "C")], "ret": "C", "attrs": _VG_P},
+        ],
+    },
+    # wave 6 (seeded change C10_g): exception paths of the conversions (does the call raise?) and set_representation as a state
+    # transformer with exceptions whose assignments are executed in SOURCE ORDER (plug-in harness/py2coq_c10set.py)
+    "GenC10SetRep": {
+        "file": "rpylib/model/levymodel/levymodel.py", "dom": "R", "consts": dict(REP, **{"np.inf": "INF"}), "ext": "py2coq_c10set",
+        "header": "From Coq Require Import ZArith Reals Bool List.\nFrom RV Require Import Base.RB Gen.GenC10Triplet.\nOpen Scope R_scope.\n",
+        "funcs": [
+            {"py": "LevyTriplet.canonical_drift", "coq": "canonical_drift_raises", "pyargs": [], "args": _T_ARGS, "ret": "bool",
+             "attrs": _T_ATTRS, "calls": _T_CALLS, "on_raise": "true", "raises_mode": True},
+        ] + [
+            {"py": f"LevyTriplet.{m}", "coq": f"{m}_raises", "pyargs": [], "args": _T_ARGS, "ret": "bool",
+             "attrs": _T_ATTRS, "calls": _T_CALLS, "on_raise": "true", "raises_mode": True,
+             "raising_calls": {"self.canonical_drift": ("canonical_drift INF m1 fv a rep", "canonical_drift_raises INF m1 fv a rep")}}
+            for m in ("zero_drift", "center_drift", "tilde_drift")
+        ] + [
+            {"py": "LevyTriplet.set_representation", "coq": "set_representation_gen", "pyargs": ["representation"],
+             "emitter": "py2coq_c10set:emit_set_representation",
+             "methods": {m: (m, f"{m}_raises") for m in ("canonical_drift", "zero_drift", "center_drift", "tilde_drift")}},
+        ],
+    },
     "GenC10Exp": {
         "file": "rpylib/model/levymodel/exponentialoflevymodel.py", "dom": "R",
         "funcs": [
